@@ -342,6 +342,7 @@ func cmdVisePairsHist(args []string) error {
 		if err := json.Unmarshal(b, &h); err != nil {
 			return err
 		}
+		h.decode()
 		sid := fmt.Sprintf("%s.h%d", p.Name, n)
 		st := stores[n%len(stores)]
 		n++
